@@ -327,13 +327,41 @@ class Run:
             "data_io": {k: _dio.register_data_io(k) for k in SHORTS[:4] + CASED},
             "project_io": {k: _pio.register_project_io(k) for k in SHORTS[:4] + CASED},
         }
+        import glotaran.plugin_system.base_registry as _br
+
+        real = getattr(_br, "__PluginRegistry")
+        before = {name: dict(getattr(real, name)) for name in ("megacomplex", "data_io", "project_io")}
+        leave_by_exception = self.plan["kind"] == "history" and len(self.plan["ops"]) % 3 == 0
         try:
-            with monkeypatch_plugin_registry(
-                test_megacomplex={}, test_data_io={}, test_project_io={}, create_new_registry=True
-            ):
-                if self.plan["kind"] == "sweep":
-                    return self.run_sweep()
-                self.run_ops(self.plan["registry"], self.plan["ops"])
+            try:
+                with monkeypatch_plugin_registry(
+                    test_megacomplex={}, test_data_io={}, test_project_io={}, create_new_registry=True
+                ):
+                    if self.plan["kind"] == "sweep":
+                        return self.run_sweep()
+                    self.run_ops(self.plan["registry"], self.plan["ops"])
+                    if leave_by_exception:
+                        self.rec.probe("sandbox_left_by_exception")
+                        raise core.InjectedFault("leaving the registry sandbox by an exception")
+            except core.InjectedFault:
+                pass
+            finally:
+                # the process-wide registries must be exactly what they were (same names, same plugin objects)
+                for name, snap in before.items():
+                    now = getattr(real, name)
+                    if list(now.keys()) != list(snap.keys()) or any(now[k] is not snap[k] for k in snap):
+                        leaked = sorted(set(now) - set(snap))
+                        lost = sorted(set(snap) - set(now))
+                        self.rec.violate(
+                            "C19/sandbox-leak",
+                            "refinement",
+                            f"after the sandboxed run the real {name} registry differs: leaked {leaked[:5]}, lost {lost[:5]} "
+                            f"(left by exception: {leave_by_exception})",
+                        )
+                        for k in list(now.keys()):
+                            now.pop(k)
+                        now.update(snap)  # repair, so that later runs of this worker are not affected
+                        break
         finally:
             shutil.rmtree(self.sandbox, ignore_errors=True)
         rec = self.rec
